@@ -149,6 +149,8 @@ pub struct FaultPlan {
   pub read_err_at: Option<u64>,
   /// `Resource::write` fails at this call (1-based) of the session.
   pub write_err_at: Option<u64>,
+  /// All injected checker errors of the session carry the same text (as real I/O errors of one kind do).
+  pub same_err_text: bool,
 }
 
 pub struct Sim {
@@ -350,7 +352,7 @@ impl<const F: u8> ResourceChecker<R<F>> for RChk {
     let err = with_sim(|s| {
       s.check_calls += 1;
       if s.faults.check_err_calls.contains(&s.check_calls) || s.faults.check_err_res.contains(&key) {
-        let code = 9000 + s.errors_injected.len() as u32;
+        let code = if s.faults.same_err_text { 9000 } else { 9000 + s.errors_injected.len() as u32 };
         s.errors_injected.push((stamp.serial, code));
         Some(code)
       } else { None }
@@ -436,7 +438,7 @@ fn injected_check_error(key: ResKey, serial: u64) -> Option<u32> {
   with_sim(|s| {
     s.check_calls += 1;
     if s.faults.check_err_calls.contains(&s.check_calls) || s.faults.check_err_res.contains(&key) {
-      let code = 9000 + s.errors_injected.len() as u32;
+      let code = if s.faults.same_err_text { 9000 } else { 9000 + s.errors_injected.len() as u32 };
       s.errors_injected.push((serial, code));
       Some(code)
     } else { None }
